@@ -250,6 +250,12 @@ impl Trapped {
     pub fn file(&self) -> String {
         let f = self.loc.rsplit_once(':').map(|x| x.0).unwrap_or(&self.loc);
         // strip the absolute prefix of the repository (wherever a copy of it lives)
+        // (a dependency's source: crate directory onwards)
+        if let Some(i) = f.find("/registry/src/") {
+            if let Some(j) = f[i + 14..].find('/') {
+                return f[i + 14 + j + 1..].to_string();
+            }
+        }
         for c in ["lorawan-encoding/", "lorawan-device/", "lorawan-macros/", "lora-modulation/", "lora-phy/"] {
             if let Some(i) = f.find(c) {
                 return f[i..].to_string();
